@@ -30,6 +30,23 @@ def base_programs():
     return B
 
 
+def scheme_specials():
+    """programs whose handling depends on the bankswitching scheme (selected by the platform macro): name -> (args, source)"""
+    S = collections.OrderedDict()
+    for sn, d in (('4K', None), ('3E', '__3E__'), ('3EP', '__3E_PLUS__'), ('SG', '__SUPERGAME__'), ('SGX', '__SUPERGAME_EXFIX__'), ('SG256X', '__SUPERGAME256_EXFIX__'), ('DPC', '__DPC__')):
+        a = ['-D' + d] if d else []
+        S['scheme/%s/bankcall-no-romselect' % sn] = (a, 'char v;\nbank1 void f() { v++; }\nvoid main() { f(); }\n')
+        S['scheme/%s/bankcall' % sn] = (a, 'unsigned char * const ROM_SELECT = 0x3f;\nchar v;\nbank1 void f() { v++; }\nvoid main() { f(); }\n')
+        S['scheme/%s/bank-to-bank' % sn] = (a, 'unsigned char * const ROM_SELECT = 0x3f;\nchar v;\nbank1 void f() { v++; }\nbank2 void g() { f(); }\nvoid main() { g(); }\n')
+        S['scheme/%s/bank7' % sn] = (a, 'unsigned char * const ROM_SELECT = 0x3f;\nchar v;\nbank7 void f() { v++; }\nbank15 void g() { v--; }\nbank2 void h() { f(); g(); }\nvoid main() { h(); f(); g(); }\n')
+        S['scheme/%s/bank-inline' % sn] = (a, 'unsigned char * const ROM_SELECT = 0x3f;\nchar v;\nbank1 inline void f() { v++; }\nvoid main() { f(); }\n')
+        S['scheme/%s/bank-value' % sn] = (a, 'unsigned char * const ROM_SELECT = 0x3f;\nchar v;\nbank1 char f(char x) { return x + 1; }\nvoid main() { v = v + f(v); }\n')
+        S['scheme/%s/bank-huge' % sn] = (a, 'char v;\nbank99999 void f() { v++; }\nvoid main() { f(); }\n')
+        S['scheme/%s/superchip' % sn] = (a, 'superchip char s[4];\nsuperchip short w;\nchar v;\nvoid main() { s[X] = v; w = w + 1; v = s[Y]; s[1]++; }\n')
+        S['scheme/%s/bank-ram' % sn] = (a, 'bank1 char s[4];\nchar v;\nvoid main() { s[X] = v; v = s[Y]; s[1]++; }\n')
+    return S
+
+
 def specials():
     S = collections.OrderedDict()
     S['empty'] = b''; S['space'] = b' \n\t'; S['nul'] = b'char a;\0void main() {}'; S['nonutf8'] = b'char a\xff\xfe; void main() {}'; S['nonutf8-comment'] = b'// \xc3\x28\nvoid main() {}\n'
@@ -118,7 +135,8 @@ def run(tier):
     st['kernel_paths'] = s10['paths'] + s06['paths']; st['kernel_queries'] = s10['queries'] + s06['queries']; st['kernel_obligations'] = s10['obligations'] + s06['obligations']
     st['isolated'] = s10['unconfirmed_isolated'][:6]
     # (b) enumerated near-valid inputs
-    reqs = [(pid, [], s) for pid, s in mutations(tier)] + [('special/' + n, ['-I', '/nonexistent'], s) for n, s in specials().items()]
+    reqs = [(pid, [], s) for pid, s in mutations(tier)] + [('special/' + n, ['-I', '/nonexistent'], s) for n, s in specials().items()] + \
+           [('special/' + n, ['-I', '/nonexistent'] + a, s) for n, (a, s) in scheme_specials().items()]
     # listing option: statements on the last line, with and without a final newline, one-line programs
     for n, s in base_programs().items():
         one = ' '.join(l for l in s.split('\n') if not l.startswith('#'))
